@@ -14,6 +14,8 @@ func TestWorld(t *testing.T) {
 		PreemptMeans: []int{0, 0, 50, 200, 1000},
 		MaxSteps:     30_000_000,
 		MaxSimTime:   12 * time.Hour,
+		FreezeOneIn:  10,
+		FreezeMax:    3000,
 	})
 }
 
